@@ -8,7 +8,8 @@ themselves; every other byte is `~hh` (two lower-case hex digits; `~00` is allow
   b <x> <y>             -> <concatPaths x y> <relativePath x y | ERR:NotImplemented> <hasPrefix x (cstr y)> <hasSuffix x (cstr y)>
                            (hasPrefix/hasSuffix take the pattern as `const char*`: `cstr y` = y up to its first NUL)
   f <fmt> <arg>...      -> <formatString fmt args> | ERR:Exception
-                           arg = d:<int> | l:<long> | u:<unsigned> | c:<char code> | w:<wint_t code> | s:<count>:<piece>
+                           arg = d:<int> | l:<long> | q:<long long> | u:<unsigned> | z:<size_t> | c:<char code> |
+                                 w:<wint_t code> | s:<count>:<piece>   (a `*` width consumes a d: argument)
   tp <p> <r> | tq <p> <0|1> <r> | tc <base> <p> <r>
                         -> <processPath p> | <prettyPath p isDir> | <concatPaths base p>   (documentation rows; <r> is
                            the documented result, compared by the harness oracle and by the theorems doc_table_*)
@@ -49,6 +50,8 @@ def parseArg (t : String) : Option FArg :=
   match t.splitOn ":" with
   | ["d", i] => i.toInt?.bind fun v => if -2147483648 ≤ v ∧ v ≤ 2147483647 then some (FArg.int v) else none
   | ["l", i] => i.toInt?.map FArg.long
+  | ["q", i] => i.toInt?.map FArg.llong
+  | ["z", n] => n.toNat?.bind fun v => if v ≤ 18446744073709551615 then some (FArg.size v) else none
   | ["u", n] => n.toNat?.bind fun v => if v ≤ 4294967295 then some (FArg.uns v) else none
   | ["c", n] => n.toNat?.bind fun v => if 1 ≤ v ∧ v ≤ 255 then some (FArg.chr v) else none
   | ["w", n] => n.toNat?.bind fun v => if v ≤ 4294967295 then some (FArg.wchr v) else none
@@ -94,7 +97,7 @@ def handle (line : String) : String :=
     match decStr fmt, args.mapM parseArg with
     | some fmt, some args =>
       let onlyDS := args.all fun a => match a with | .int _ => true | .str _ => true | _ => false
-      if fmt.contains (Char.ofNat 0) ∨ (onlyDS ∧ args.length > 4) ∨ (¬ onlyDS ∧ args.length > 2) then "bad-op"
+      if fmt.contains (Char.ofNat 0) ∨ (onlyDS ∧ args.length > 6) ∨ (¬ onlyDS ∧ args.length > 2) then "bad-op"
       else
         let show_ (i : Option Str) : String :=
           match formatString i with
